@@ -11,7 +11,7 @@ from ..model import call_many
 from ..pool import run_cases
 
 THEOREMS = ["C19_guard_sound", "C19_guard", "C19_guard_args", "C19_all_exact", "C19_symbols_defined",
-            "C19_reorder_keeps_everything", "C19_example", "C19_sanitised_name_chars", "C19_sanitised_name_refuted"]
+            "C19_reorder_keeps_everything", "C19_example", "C19_sanitised_name_chars", "C19_sanitised_name_refuted", "C19_infer_model_wherever_base_stands", "C19_infer_plain_class", "C19_infer_examples"]
 
 EMITS = ["class", "function", "argparse", "json_schema", "pydantic", "sqlalchemy", "sqlalchemy_table", "sqlalchemy_hybrid"]
 # (valid identifiers that are soft keywords / builtins / lower case included: the symbol name and the __all__ entry are computed at two sites)
@@ -311,6 +311,33 @@ def run(ctx):
     for s_, m_ in zip(idents, call_many("ensure_valid_identifier", idents)):
         if _evi(s_) != m_:
             corr_bad.append({"input": s_, "impl": _evi(s_), "model": m_, "function": "ensure_valid_identifier"})
+    # parser_utils.infer against Model/Infer.v on generated nodes (functions, classes with several kinds of bases, assignments of calls)
+    def _infer_case(rng_):
+        k = rng_.random()
+        if k < 0.3:
+            args = rng_.sample(["argument_parser", "x", "self", "parser", "y"], rng_.randint(0, 3))
+            return "def f(%s):\n    pass\n" % ", ".join(args), ["f", args]
+        if k < 0.7:
+            bases = [rng_.choice([("Base", "Base"), ("object", "object"), ("TimestampMixin", "TimestampMixin"), ("db.Base", None),
+                                  ("Generic[T]", None), ("base", "base"), ("Base2", "Base2")]) for _ in range(rng_.randint(0, 3))]
+            return "class K(%s):\n    pass\n" % ", ".join(b[0] for b in bases), ["c", [b[1] for b in bases]]
+        n = rng_.randint(0, 4)
+        second = rng_.choice([("metadata", "metadata"), ("meta", "meta"), ("'x'", None), ("db.metadata", None)])
+        argv = ["'t'", second[0], "Column('a', Integer)", "Column('b', Integer)"][:n]
+        inner = ["k", n, second[1] if n > 1 else None]
+        if rng_.random() < 0.5:
+            return "T = Table(%s)\n" % ", ".join(argv), ["a", inner]
+        return "T: Table = Table(%s)\n" % ", ".join(argv), ["a", inner]
+    from cdd.shared.parse.utils.parser_utils import infer as _infer
+    icases = [_infer_case(ctx.rng) for _ in range(300 if ctx.quick else 6000)]
+    for (src_, enc_), m_ in zip(icases, call_many("infer", [e for _s, e in icases])):
+        try:
+            i_ = _infer(ast.parse(src_).body[0])
+            i_ = "<none>" if i_ is None else i_
+        except Exception:  # noqa
+            i_ = "<raises>"
+        if i_ != m_:
+            corr_bad.append({"input": src_, "impl": i_, "model": m_, "function": "infer"})
     if not ctx.violations:
         if not status["ok"]:
             ctx.violation({"stage": "proof", "theorem": status.get("failing_theorem"),
